@@ -118,7 +118,7 @@ def gen_sort(rng, pool):
 
 
 def keyed_list(rng, pool):
-    n = rng.choice([0, 1, 2, 3, 5, 8, 12, 20, 30, 40])
+    n = rng.choice([0, 1, 2, 3, 5, 8, 12, 20, 30, 40, 64])
     nk = rng.choice([1, 2, 3, 4, 6])
     keys = [rng.choice(pool[rng.choice(CATS)]) for _ in range(nk)]
     # keys that are == but written differently
@@ -338,7 +338,9 @@ def error_key(case, ans):
     txt = json.dumps(ans, ensure_ascii=False)
     m = re.search(r'"err": \{"c": \["error", \{"c": \["([a-z_]+)", \{"a": "([a-z_]+)"\}', txt)
     kind = "%s(%s)" % (m.group(1), m.group(2)) if m else ("panic" if '"panic"' in txt else "no-answer")
-    key = "%s:%s" % (case["kind"], kind)
+    # the predicate named in the error context is used only to label the finding
+    c = re.search(r'\{"c": \["/", \{"a": "([a-z_]+)"\}, \{"i": "\d+"\}\]\}\]\}\}\]$', json.dumps(ans)) if m else None
+    key = "%s:%s" % (c.group(1) if c else case["kind"], kind)
     if kind == "type_error(list)" and any(char_prefix(l) for l in case["inputs"]):
         key += ":char-prefix"
     return key, txt[:400]
@@ -347,7 +349,7 @@ def error_key(case, ans):
 def run(ctx):
     rng = ctx.rng
     pool = build_pool(rng)
-    n_cases = ctx.scale(5000, 80000)
+    n_cases = ctx.scale(2400, 36000)
     cases = []
     names = [g[0] for g in GENS]
     weights = [g[2] for g in GENS]
@@ -420,7 +422,7 @@ def run(ctx):
         bmeta.append((idx, parts, ans))
         dist["cases"][case["gen"]] = dist["cases"].get(case["gen"], 0) + 1
         for l in case["inputs"]:
-            bucket = min(len(l) // 10 * 10, 40)
+            bucket = min(len(l) // 10 * 10, 60)
             dist["input_lengths"][str(bucket)] = dist["input_lengths"].get(str(bucket), 0) + 1
             if char_prefix(l): dist["char_prefixed_inputs"] += 1
         if case["kind"] == "assoc":
